@@ -20,7 +20,7 @@ from .. import core, parsers, rig, worlds
 
 ID = "C08"
 
-BASE = {"a.txt": b"A\n", "b.html": worlds.HTML, "c.txt.gz": worlds.gz(b"c\n"), "d": {"inner.txt": b"i\n"}, "sub": {"x.txt": b"x\n"}, "a.txt.abstract": b"sidecar abstract of a\n", "e.txt": b"E\n"}
+BASE = {"notes.txt.old.txt": b"n\n", "a.txt-b.txt": b"ab\n", "index.html.bak.html": b"<html><body>no title</body></html>\n", "a.txt": b"A\n", "b.html": worlds.HTML, "c.txt.gz": worlds.gz(b"c\n"), "d": {"inner.txt": b"i\n"}, "sub": {"x.txt": b"x\n"}, "a.txt.abstract": b"sidecar abstract of a\n", "e.txt": b"E\n"}
 
 # block = list of lines (bytes); kind o = override of ./target, n = new entry
 O = lambda target, *lines: ("o", target, [b"Path=./" + target] + list(lines))  # noqa: E731
@@ -40,6 +40,7 @@ BLOCKS = [
     N(b"# a comment before the block", b"Name=Commented", b"Type=0", b"Path=/c", b"Host=+", b"Port=+"),
     N(b"Name=Zed", b"Type=0", b"Path=/z", b"Host=+", b"Port=+", b"Numb=10"),
     N(b"Name=Alpha", b"Type=0", b"Path=/dup", b"Host=+", b"Port=+", b"Numb=2"),
+    O(b"a.txt", b"Numb=0"), O(b"e.txt", b"Name=echo renamed"),
 ]
 
 
@@ -177,6 +178,21 @@ def compare(got, exp):
     return None
 
 
+def _known_suffixes(fn: bytes):
+    """Extensions (with an optional encoding suffix) that the configured tables give the type of this file name."""
+    from .c04 import _mime_tables, ref_mime
+
+    ext, enc, suffix = _mime_tables()
+    t, encoding = ref_mime(fn)
+    out = set()
+    for e, ty in ext.items():
+        if ty == t:
+            out.add(e)
+            for en in enc:
+                out.add(e + en)
+    return out
+
+
 def check_case(capfiles, linkfiles, extstrip="nonencoded"):
     w = rig.World({"t": {k: (dict(v) if isinstance(v, dict) else v) for k, v in BASE.items()}}, handlers="default", cachetime=0, tag="c08",
                   handlers_DOT_UMN_DOT_UMNDirHandler__extstrip=extstrip)
@@ -199,8 +215,11 @@ def check_case(capfiles, linkfiles, extstrip="nonencoded"):
                 fn = sel.rsplit(b"/", 1)[1]
                 if extstrip == "none" and e["name"] not in (fn, b"An HTML Title"):
                     return ("extstrip", "extstrip=none but %r is shown as %r" % (fn, e["name"]))
-                if not (fn == e["name"] or (fn.startswith(e["name"]) and fn[len(e["name"]):].startswith(b".")) or e["name"] == b"An HTML Title"):
-                    return ("extstrip", "display name %r is not the file name %r minus an extension" % (e["name"], fn))
+                if e["name"] in (fn, b"An HTML Title"):
+                    continue
+                removed = fn[len(e["name"]):] if fn.startswith(e["name"]) else None
+                if removed is None or removed not in _known_suffixes(fn):
+                    return ("extstrip", "display name %r is not the file name %r minus ONE known extension of its type (removed %r)" % (e["name"], fn, removed))
     finally:
         w.destroy()
     return None
@@ -255,6 +274,14 @@ def _conflict(i, j):
     return False
 
 
+def _hide_conflict(i, j):
+    a, b = BLOCKS[i], BLOCKS[j]
+    if a[0] == "o" and b[0] == "o" and a[1] == b[1]:
+        fa, fb = parse_block(a[2]), parse_block(b[2])
+        return (fa.get("type") in (b"X", b"-")) != (fb.get("type") in (b"X", b"-"))
+    return False
+
+
 def run(ck):
     items = []
     n = len(BLOCKS)
@@ -262,8 +289,10 @@ def run(ck):
         for ext in ("nonencoded", "none", "full"):
             items.append(("links", (i,), ext))
     for i, j in itertools.product(range(n), repeat=2):
-        if i != j and not _conflict(i, j):
+        if i != j and not _hide_conflict(i, j):
+            # inside ONE link file the reading order decides: a later block overrides an earlier one
             items.append(("links", (i, j), "nonencoded"))
+        if i != j and not _conflict(i, j):
             items.append(("two-files", (i, j), "nonencoded"))
     trip = [0, 3, 4, 9, 14, 15, 17, 20, 23, 24] if ck.tier == "quick" else list(range(n))
     for c in itertools.permutations(trip, 3):
